@@ -2063,6 +2063,48 @@ impl<'a, C: Crypto> TransportRunner<'a, C> {
                     session.decode_remaining(&self.crypto, &mut packet.header, pb)?;
                 set_payload(packet, payload_range);
 
+                #[cfg(feature = "groups")]
+                if packet.header.plain.is_group_session()
+                    && !packet.header.plain.is_control_msg()
+                {
+                    // A group *data* message that arrives while the ephemeral RX group session
+                    // of an earlier message of the same sender (same address, group session id
+                    // and source node id) is still alive is matched to that session. It must
+                    // pass the very checks `get_or_create_for_group_rx` applies to a message
+                    // that creates such a session: the group it addresses is the one the key
+                    // was accepted for, and its counter is new to the per-sender group counter
+                    // store. The receive window of the session itself is fresh, so without
+                    // this a replayed message would be handed on a second time.
+                    if let session::SessionMode::Group { fab_idx, group_id } =
+                        session.get_session_mode()
+                    {
+                        let (fab_idx, group_id) = (*fab_idx, *group_id);
+                        let session_id = session.id;
+                        let src_nodeid = session.get_peer_node_id().unwrap_or_default();
+
+                        if packet
+                            .header
+                            .plain
+                            .get_dst_groupcast_nodeid()
+                            .is_some_and(|gid| gid != group_id)
+                        {
+                            Err(ErrorCode::NoSession)?;
+                        }
+
+                        if !state.sessions.group_data_post_recv(
+                            fab_idx.get(),
+                            src_nodeid,
+                            packet.header.plain.ctr,
+                        ) {
+                            Err(ErrorCode::Duplicate)?;
+                        }
+
+                        // `unwrap` is safe: the session was found above and nothing removed it
+                        return unwrap!(state.sessions.get(session_id))
+                            .post_recv(&packet.header);
+                    }
+                }
+
                 return session.post_recv(&packet.header);
             }
 
